@@ -31,12 +31,18 @@ func init() {
 			"0-byte body, header-less data); case i always contains kind i mod 30, so every kind occurs n/30 times per back end. " +
 			"Each body is sent by an RFC 5321 sender over a real SMTP session to 1-2 recipients (mailbox optionally pre-filled with one " +
 			"message) on the mem and the file store, and every stored copy is read back through Store.Source/Size, REST source, web UI " +
-			"source, POP3 RETR and the sizes of REST list/show, POP3 STAT/LIST/RETR. A case is non-trivial when >=1 copy was stored and " +
-			"read back through all four interfaces; distinct by (back end, header present, set of segment kinds, recipients, pre-fill).",
+			"source, POP3 RETR and the sizes of REST list/show, POP3 STAT/LIST/RETR. The POP3 read-back of a copy is ONE session running a " +
+			"script drawn per copy: single RETR, TOP n 0 then RETR, RETR twice, TOP twice then RETR, RETR - RETR of the other message - RETR, or " +
+			"2-6 free steps over RETR / TOP n 0 / TOP n 1..20 / TOP n 2^31-1 of either message, STAT, LIST n, NOOP; every RETR must be the stored " +
+			"bytes under C with the stored size announced, every TOP their leading part (whole message for 2^31-1 lines). " +
+			"A case is non-trivial when >=1 copy was stored and " +
+			"read back through all four interfaces; distinct by (back end, header present, set of segment kinds, recipients, pre-fill, " +
+			"script shape and kinds of repetition observed).",
 		Assumptions: []string{
 			"comparison under C(x) = every run of CRs directly before an LF removed (CRLF/LF normalisation; CR CR LF also equals LF)",
 			"inputs in which a bare LF is immediately followed by '.' are generated and counted, but only their interface agreement and sizes decide, not the transmitted-vs-stored comparison",
 			"a message the server refuses (451 for unparseable headers) is a trivial case; acceptance itself is not part of C02",
+			"TOP n k is judged as RFC 1939 defines it, with a lower bound only: under C a leading part of the stored source, cut after a line, that holds at least the header up to the first empty line (empty under C, the earliest reading) and k further lines; k = 2^31-1 demands the whole message",
 			"sessions run through VerifServeConn on an in-memory net.Conn; HTTP goes through a real loopback httptest server",
 		},
 		MinObs: func(tier string) map[string]int64 {
@@ -50,6 +56,13 @@ func init() {
 				"sizes_pop3_stat": 3000 * f, "sizes_pop3_list": 3000 * f, "sizes_pop3_retr": 3000 * f,
 				"long_line_copies_over_64k": 600 * f, "lfdot_cases": 100 * f, "backend:mem": 3000 * f, "backend:file": 3000 * f,
 				"distinct_nontrivial": 2000 * f}
+			// retrieval scripts (about 9 700 copies in quick; 7 of 8 scripts repeat a retrieval)
+			for k, v := range map[string]int64{"pop3_retrievals_judged": 6000, "pop3_top_ok": 1500, "pop3_top_partial_ok": 500,
+				"pop3_repeated_retrieval_ok": 2500, "pop3_repeated_retrieval_ok:mem": 1000, "pop3_repeated_retrieval_ok:file": 1000,
+				"pop3_retr_after_top_ok": 800, "pop3_retr_after_retr_ok": 800, "pop3_top_after_retr_ok": 500,
+				"pop3_other_message_retr_ok": 100, "pop3_retr_again_after_other_message_ok": 100} {
+				m[k] = v * f
+			}
 			for _, k := range kinds {
 				m["kind:"+k] = 150 * f
 			}
@@ -86,14 +99,16 @@ func run(c *fw.Ctx) {
 }
 
 type caseCtx struct {
-	c       *fw.Ctx
-	we      *sut.WebEnv
-	hc      *http.Client
-	backend string
-	idx     int
-	msg     *message
-	info    map[string]any
-	hung    bool // a watchdog fired: nothing further in this case is judged
+	c        *fw.Ctx
+	we       *sut.WebEnv
+	hc       *http.Client
+	backend  string
+	idx      int
+	msg      *message
+	info     map[string]any
+	hung     bool     // a watchdog fired: nothing further in this case is judged
+	r        *fw.Rand // the case's PRNG (retrieval scripts)
+	popFlags []string // per copy: script shape and the repetitions observed in its POP3 session
 }
 
 func (k *caseCtx) hang(name, what string) {
@@ -122,7 +137,7 @@ var helos = []string{"client.test", "mx1.sender.example", "[192.0.2.7]", "localh
 func runCase(c *fw.Ctx, we *sut.WebEnv, hc *http.Client, backend string, idx int, r *fw.Rand) {
 	forced := kinds[idx%len(kinds)]
 	msg := genMessage(r, forced, c.Quick())
-	k := &caseCtx{c: c, we: we, hc: hc, backend: backend, idx: idx, msg: msg}
+	k := &caseCtx{c: c, we: we, hc: hc, backend: backend, idx: idx, msg: msg, r: r}
 	helo := r.Pick(helos)
 	sender := "sender" + strconv.Itoa(r.Intn(1000)) + "@origin.test"
 	if r.Chance(1, 20) {
@@ -314,7 +329,8 @@ func runCase(c *fw.Ctx, we *sut.WebEnv, hc *http.Client, backend string, idx int
 		}
 	}
 	if all {
-		c.NonTrivial(fmt.Sprintf("%s|h=%v|%s|r=%d|p=%v", backend, msg.header, strings.Join(msg.kindSet, ","), len(boxes), prefill))
+		c.NonTrivial(fmt.Sprintf("%s|h=%v|%s|r=%d|p=%v|pop3=%s", backend, msg.header, strings.Join(msg.kindSet, ","), len(boxes), prefill,
+			strings.Join(k.popFlags, ",")))
 		c.Sample(map[string]any{"backend": backend, "kinds": msg.kindSet, "data_len": len(msg.data), "max_line": msg.maxLine,
 			"recipients": len(boxes), "prefill": prefill})
 	}
@@ -604,47 +620,33 @@ func (k *caseCtx) pop3(box string, pre int, src, csrc []byte, bad func(key, what
 			c.Count("sizes_pop3_listing", 1)
 		}
 	}
-	// RETR.
-	rep, err = ps.Cmd("RETR " + strconv.Itoa(n))
-	if err != nil {
-		k.hang("pop3-command", err.Error())
+	// Retrievals: a script of RETR / TOP / STAT / LIST / NOOP in one session (pop3multi.go; added
+	// after seeded change C02-12), every step judged against the store.
+	v := &popView{box: box, n: n, sizes: sizes, total: total, srcs: make([][]byte, n), csrcs: make([][]byte, n)}
+	v.srcs[n-1], v.csrcs[n-1] = src, csrc
+	if pre == 1 {
+		other, err := readSource(cur[0])
+		if err != nil {
+			fail("C02:store-source", fmt.Sprintf("reading Source() of the earlier message of %s: %v", box, err))
+			return false
+		}
+		v.srcs[0], v.csrcs[0] = other, normC(other)
+	}
+	shape, ops := popScript(k.r, n, pre, len(src) > 128<<10)
+	sok, flags := k.runPopScript(ps, v, shape, ops, fail)
+	if !sok {
 		return false
 	}
-	switch {
-	case rep.Malformed != "" || !rep.OK:
-		fail("C02:pop3-retr", fmt.Sprintf("RETR %d answered %s", n, fw.Q(string(rep.Raw))))
-	case !rep.Terminated:
-		fail("C02:pop3-retr", fmt.Sprintf("RETR %d: multi-line response not terminated by a lone dot (%d bytes of output)", n, len(rep.Raw)))
-	default:
-		got := normC(rep.BodyBytes())
-		if !bytes.Equal(got, csrc) {
-			at, a, b := firstDiff(got, csrc)
-			key := "C02:pop3-retr"
-			if k.msg.maxLine > 65535 {
-				key = "C02:pop3-retr-long-line"
-			}
-			fail(key, fmt.Sprintf("RETR %d of %s returns %d normalised bytes, the store has %d; first difference at offset %d: pop3 %q, store %q",
-				n, box, len(got), len(csrc), at, a, b))
-		}
-		if len(rep.Extra) > 0 {
-			fail("C02:pop3-stray-output", fmt.Sprintf("RETR %d: output after the terminating dot: %s", n, fw.Q(string(rep.Extra))))
-		}
-		mm := retrRE.FindStringSubmatch(rep.First)
-		if mm == nil || mm[1] != strconv.Itoa(len(src)) {
-			fail("C02:pop3-retr-size", fmt.Sprintf("RETR %d announced %q, stored source has %d bytes", n, rep.First, len(src)))
-		} else {
-			c.Count("sizes_pop3_retr", 1)
-		}
-		if okAll {
-			c.Count("pop3_retr_ok", 1)
-		}
+	k.popFlags = append(k.popFlags, flags)
+	if okAll {
+		c.Count("pop3_retr_ok", 1)
 	}
 	// The session must still be usable and in step after the retrieval.
 	if rep, err := ps.Cmd("NOOP"); err != nil {
 		k.hang("pop3-command", err.Error())
 		return false
 	} else if !rep.OK || rep.Multi {
-		fail("C02:pop3-stray-output", fmt.Sprintf("NOOP after RETR answered %s (%v)", fw.Q(string(rep.Raw)), err))
+		fail("C02:pop3-stray-output", fmt.Sprintf("NOOP after the retrievals answered %s (%v)", fw.Q(string(rep.Raw)), err))
 	}
 	// Leave without QUIT: no deletions are committed.
 	return okAll
